@@ -126,7 +126,8 @@ def layout_check(tab, tier):
     fails, n = [], 0
     real = {}
     for i, (nn, ppn) in enumerate(shapes):
-        r = simrun(exe, nn * ppn, [], ppn=ppn, seed=7 + i, policy='uniform', wall=60)
+        want_scheme = i % 3
+        r = simrun(exe, nn * ppn, [], ppn=ppn, seed=7 + i, policy='uniform', wall=60, env={'YGM_COMM_ROUTING': ['NONE', 'NR', 'NLNR'][want_scheme]})
         if r['verdict'] != 'ok':
             fails.append({'what': 'layout_enum on %d nodes x %d ranks ended with %s %s' % (nn, ppn, r['verdict'], r['detail']), 'cmd': r['cmd']}); continue
         size = nn * ppn
@@ -142,6 +143,15 @@ def layout_check(tab, tier):
                 for nm, g, w in zip(names, parts, want):
                     if g != w:
                         fails.append({'what': 'layout of rank %d on %d nodes x %d ranks: %s is %s, block placement gives %s' % (me, nn, ppn, nm, g, w), 'cmd': r['cmd'], 'level': 'model'})
+            elif l.startswith('HD ') and ':' in l:
+                # the scheme asked for through YGM_COMM_ROUTING is the one the communicator routes with
+                t = l.split(':', 1)[0].split()
+                me, got_scheme = int(t[1]), int(t[2])
+                hops = l.split(':', 1)[1].split()
+                n += 1
+                if got_scheme != want_scheme:
+                    fails.append({'what': 'YGM_COMM_ROUTING=%s selects scheme %s on rank %d (%d nodes x %d ranks)' % (['NONE', 'NR', 'NLNR'][want_scheme], ['NONE', 'NR', 'NLNR'][got_scheme] if 0 <= got_scheme < 3 else got_scheme, me, nn, ppn), 'cmd': r['cmd']})
+                real[('default', nn, ppn, me)] = (want_scheme, hops)
             elif l.startswith('H ') and ':' in l:
                 t = l.split(':', 1)[0].split()
                 me, sc = int(t[1]), int(t[2])
@@ -155,6 +165,11 @@ def layout_check(tab, tier):
     for (nn, ppn) in shapes:
         if all((nn, ppn, me, sc) in real for me in range(nn * ppn) for sc in range(3)):
             sub = {k: v for k, v in real.items() if k[0] == nn and k[1] == ppn}
+            # the routes of the scheme requested through the environment are the ones the communicator's own router gives
+            for me in range(nn * ppn):
+                d = real.get(('default', nn, ppn, me))
+                if d is not None:
+                    sub[(nn, ppn, me, d[0])] = d[1]
             try:
                 fails += [dict(f, what=f['what'] + ' (on the layout built by ygm::comm for %d nodes x %d ranks)' % (nn, ppn)) for f in oracle(sub, nn, ppn, shapes=[(nn, ppn)])[2]]
             except Exception as ex:
